@@ -19,8 +19,8 @@ class C08(Prop):
             "inside and just after the latency bound, all episode lengths up to the grid. Non-trivial = delay >= 1 "
             "with more steps than the delay, or a quote inside (t, t+latency] that changes the execution price, or a "
             "discrete space with delay, or a repeated episode on the same environment; distinct = distinct cases")
-    rule = rule + es.CONTEXT_RULE
-    nontrivial_tags = {"delay-active", "latent-reprices", "discrete-delay", "repeated-episode"}
+    rule = rule + "; a few per cent of the cases use pandas Timestamps at nanosecond resolution (grid points with a sub-microsecond part, quotes 400 ns .. 3 us after a grid point, a latency of 1.5 us in C08), judged by the oracle alone" + es.CONTEXT_RULE
+    nontrivial_tags = {"nanosecond-stamps", "delay-active", "latent-reprices", "discrete-delay", "repeated-episode"}
     assumptions = [
         "the box space contains the zero vector whenever delay > 0 (otherwise the implementation's own null action is "
         "out of its space and the first step is refused - documented in DESIGN.md)",
@@ -29,6 +29,8 @@ class C08(Prop):
     COMPARE = {"ereset", "log", "step", "stepi", "state", "nrec"}
 
     def gen(self, rng, tier):
+        if rng.random() < 0.05:
+            return es.gen_ns_case(rng, rng.choice([0, 1500, 1500]))
         case, grid, keys = es.gen_episode(rng, tier, delay=rng.choice([0, 1, 1, 2, 3, 4]), markov=False, warmup=None)
         sp = case["space"]
         if sp["kind"] == "box" and case["delay"] > 0 and not (Fraction(sp["low"]) <= 0 <= Fraction(sp["high"])):
@@ -56,6 +58,13 @@ class C08(Prop):
         return case
 
     def run_impl(self, case):
+
+        if case.get("kind") == "ns":
+            # nanosecond-resolution pandas stamps: judged by the oracle alone (the model's unit is the microsecond)
+            from ..runner import ImplRun as _IR
+            r = _IR()
+            es.judge_ns_case(r, case, es.run_ns_case(case), exec_prices=bool(case.get("latency_ns")))
+            return r
         r, s = es.run_case(case, self.COMPARE)
         if s.env is None:
             return r
